@@ -563,7 +563,7 @@ func (m *Machine) runPath(fn *ssa.Function, pfx Prefix, b Bounds, solver *smt.So
 		case pathEnd:
 			res.End = x.reason
 			res.Detail = m.where()
-			if x.reason == "unwind:steps" && p.mustTerminate != "" {
+			if (x.reason == "unwind:steps" || strings.HasPrefix(x.reason, "deadlock")) && p.mustTerminate != "" {
 				// the harness declared that the code under test must terminate within the
 				// step budget: running out of steps is a counterexample (non-termination)
 				if len(p.models) == 0 && p.initModel != nil {
@@ -572,7 +572,7 @@ func (m *Machine) runPath(fn *ssa.Function, pfx Prefix, b Bounds, solver *smt.So
 				if len(p.models) > 0 {
 					if vec, ok := p.inputVector(p.models[0]); ok {
 						res.CEs = append(res.CEs, CounterExample{Label: p.mustTerminate, Kind: "assert", Vector: vec,
-							Message: fmt.Sprintf("did not terminate within %d interpreted steps", p.maxSteps), Where: res.Detail})
+							Message: fmt.Sprintf("did not terminate (%s; step budget %d)", x.reason, p.maxSteps), Where: res.Detail})
 						res.End = "assert-failed"
 						return
 					}
